@@ -500,6 +500,38 @@ class Offsets:
         if d == "dict" and not e.args and not e.keywords:
             self.nacc += 1
             return Acc(f"dict#{self.nacc}")
+        if d in ("min", "max") and len(e.args) >= 2 and not e.keywords:
+            vs = [self.ev(a, env) for a in e.args]
+            if all(isinstance(v, Lin) for v in vs):
+                ks = [lconst(v.l) for v in vs]
+                if all(k is not None for k in ks):
+                    return Lin(lc(min(ks) if d == "min" else max(ks)))
+                return Lin(ls(f"{d}({';'.join(sorted(lfmt(v.l) for v in vs))})"))
+            return Opaque(norm_text(e)[:80])
+        if isinstance(e.func, ast.Attribute) and e.func.attr in ("unpack_from", "unpack") and e.args:
+            from .model import StructVal
+            st = self.repo.try_fold(self.module, e.func.value)
+            base = self.ev(e.args[0], env)
+            off = self.ev(e.args[1], env) if len(e.args) > 1 else next((self.ev(k.value, env) for k in e.keywords if k.arg == "offset"), Lin({}))
+            if isinstance(st, StructVal) and isinstance(base, Bf) and isinstance(off, Lin) and not self._maybe_negative(off.l):
+                start = ladd(base.lo, off.l)
+                items = []
+                for sl in st.slots:
+                    pos = ladd(start, lc(sl.offset))
+                    if sl.code == "s":
+                        items.append(Bf(pos, ladd(pos, lc(sl.size))))
+                    elif sl.code in ("B", "H", "I", "L", "Q") or (sl.code == "?" and False):
+                        # unsigned big/little-endian integer: sum of byte symbols with their weights
+                        l = {}
+                        for j in range(sl.size):
+                            w = 256 ** (sl.size - 1 - j) if st.byteorder != "little" else 256 ** j
+                            l = ladd(l, lscale(ls(byte_at(ladd(pos, lc(j)))), w))
+                        items.append(Lin(l))
+                    else:
+                        # signed / float / bool codes read the same bytes differently: a distinct symbol
+                        items.append(Lin(ls(f"struct[{sl.code}]@({lfmt(pos)})")))
+                return Tup(items)
+            return Opaque(norm_text(e)[:80])
         q = self.repo.qual(self.module, e.func) if d else None
         if q == "pyairtouch.comms.encoding.decode_c_string" and len(e.args) == 1 and not e.keywords:
             v = self.ev(e.args[0], env)
@@ -798,6 +830,16 @@ def _sub_sym(name: str, mapping: dict) -> dict:
             if k is not None:
                 return lc(k // int(c) if pre == "fd(" else k % int(c))
             return ls(f"{pre}{lfmt(inner)},{c})")
+    for pre in ("min(", "max("):
+        if name.startswith(pre) and name.endswith(")"):
+            parts = [subst_l(parse_l(x), mapping) for x in name[len(pre):-1].split(";")]
+            ks = [lconst(x) for x in parts]
+            if all(k is not None for k in ks):
+                return lc(min(ks) if pre == "min(" else max(ks))
+            return ls(f"{pre}{';'.join(sorted(lfmt(x) for x in parts))})")
+    if "@(" in name and name.endswith(")"):
+        code, body = name.split("@(", 1)
+        return ls(f"{code}@({lfmt(subst_l(parse_l(body[:-1]), mapping))})")
     raise Unsupported(f"cannot substitute inside {name}")
 
 
